@@ -162,11 +162,9 @@ def fam_file(seed, tier):
     rnd = random.Random(seed)
     for order in ORDERS:
         subsets = [s for r in range(1, len(order) + 1) for s in itertools.combinations(order, r)]
-        if tier == "quick":
-            subsets = subsets[:1] + subsets[-1:]
         for dec in subsets:
             z = rnd.choice([0, 1, 2, 3, 16])
-            yield dict(order=list(order), dec=list(dec), sk=bytes(rnd.randrange(1, 256) for _ in range(16 - z)) + bytes(z),
+            yield dict(order=list(order), dec="+".join(dec), sk=bytes(rnd.randrange(1, 256) for _ in range(16 - z)) + bytes(z),
                        sel=rnd.randrange(4), version=rnd.choice([0, 1, 127, 128, 255]),
                        code=bytes(rnd.randrange(256) for _ in range(8)), ckey=bytes(rnd.randrange(256) for _ in range(16)),
                        cfg=bytes(rnd.randrange(256) for _ in range(rnd.choice([1, 7, 16, 33]))))
@@ -215,7 +213,9 @@ def _file_proof(vc, order):
     f = M.Bec2File(bf3, [blocks[k]() for k in order], sk)
     binary = f.to_binary([encs[k]() for k in order])
     vc.prove("written.signature", binary[0:5] == b"BEC2\0")
-    dec_kinds = vc._get("dec") if not vc.symbolic else list(order)
+    # every subset of decryptors able to open at least one block (a fork per subset in symbolic mode)
+    dec_kinds = vc.choice("dec", ["+".join(s) for r in range(1, len(order) + 1)
+                                  for s in itertools.combinations(order, r)]).split("+")
     if vc.symbolic:
         vc.prove("written.body-at-offset=header-length-under-session-key",
                  len(calls) == 1 and calls[0][1] == vc.len(binary) - vc.len(body) and calls[0][2] == sk)
